@@ -7,6 +7,7 @@
 // usage: c01 <factors-file> <part> <nparts> [exhaustive_float]
 #include VF_HDR
 
+#include <algorithm>
 #include <fstream>
 #include <iostream>
 
@@ -167,7 +168,27 @@ static void runtime_pairs(int part, int nparts) {
   vf::stat("nontrivial_conversions", nontrivial);
 }
 
-// ---- compile-time path
+// ---- compile-time path: one thin thunk per (From, To); the checking loop is shared
+template <class T, E From, E To>
+T static_thunk(T x) {
+  return PhQ::ConvertStatically<E, From, To>(x);
+}
+template <class T>
+void static_pair(int i, int j, T (*conv)(T), E from, E to) {
+  long long nontrivial = 0;
+  const std::vector<T> vals = values_for<T>(U[i], U[j]);
+  for (T x : vals) {
+    const T got = conv(x);
+    check_one<T>("static", U[i], U[j], x, got, nontrivial);
+    // the two paths are the same two hops: they must agree bit for bit
+    const T rt = PhQ::Convert(x, from, to);
+    if (!vf::same_bits(rt, got))
+      vf::viol(std::string("static-vs-runtime|") + VF_ENAME + "|" + U[i].name + "->" + U[j].name + "|" + vf::TName<T>::value,
+               "{\"x\":" + vf::jstr(vf::hex(x)) + ",\"static\":" + vf::jstr(vf::hex(got)) + ",\"runtime\":" + vf::jstr(vf::hex(rt)) + "}");
+  }
+  vf::stat("ordered_pairs_static");
+  vf::stat("nontrivial_conversions", nontrivial);
+}
 template <class T, E From>
 struct StaticTo {
   int part, nparts;
@@ -178,26 +199,12 @@ struct StaticTo {
 #else
     constexpr bool take = (From == PhQ::Standard<E> || To == PhQ::Standard<E>);
 #endif
-    if constexpr (take) body<To>();
-  }
-  template <E To>
-  void body() {
-    const int i = idx_of((int)static_cast<int8_t>(From)), j = idx_of((int)static_cast<int8_t>(To));
-    if (i < 0 || j < 0) return;
-    if ((i % nparts) != part) return;
-    long long nontrivial = 0;
-    const std::vector<T> vals = values_for<T>(U[i], U[j]);
-    for (T x : vals) {
-      const T got = PhQ::ConvertStatically<E, From, To>(x);
-      check_one<T>("static", U[i], U[j], x, got, nontrivial);
-      // the two paths are the same two hops: they must agree bit for bit
-      const T rt = PhQ::Convert(x, From, To);
-      if (!vf::same_bits(rt, got))
-        vf::viol(std::string("static-vs-runtime|") + VF_ENAME + "|" + U[i].name + "->" + U[j].name + "|" + vf::TName<T>::value,
-                 "{\"x\":" + vf::jstr(vf::hex(x)) + ",\"static\":" + vf::jstr(vf::hex(got)) + ",\"runtime\":" + vf::jstr(vf::hex(rt)) + "}");
+    if constexpr (take) {
+      const int i = idx_of((int)static_cast<int8_t>(From)), j = idx_of((int)static_cast<int8_t>(To));
+      if (i < 0 || j < 0) return;
+      if ((i % nparts) != part) return;
+      static_pair<T>(i, j, &static_thunk<T, From, To>, From, To);
     }
-    vf::stat("ordered_pairs_static");
-    vf::stat("nontrivial_conversions", nontrivial);
   }
 };
 template <class T>
@@ -209,6 +216,98 @@ struct StaticFrom {
     vf::for_each_enumerator<E>(inner);
   }
 };
+
+
+// ---- thorough: every float mantissa. For a linear pair (no offsets) all 2^23 mantissas of three binades (the relative
+// error of a chain of constant factors does not depend on the binade; three are kept so that a magnitude-dependent defect
+// is still seen), converted through the container form; for the affine temperature pairs all 2^32 float bit patterns.
+// Reference in long double (64-bit mantissa, 2^-40 of a float ulp).
+static void float_sweep(int part, int nparts) {
+  std::vector<float> buf(1u << 23), orig(1u << 23);
+  long pair_index = 0;
+  for (size_t i = 0; i < U.size(); i++)
+    for (size_t j = 0; j < U.size(); j++) {
+      if ((pair_index++ % nparts) != part) continue;
+      const auto& f = U[i];
+      const auto& t = U[j];
+      const E ef = static_cast<E>(f.number), et = static_cast<E>(t.number);
+      const int hops = (f.number != (int)static_cast<int8_t>(PhQ::Standard<E>)) + (t.number != (int)static_cast<int8_t>(PhQ::Standard<E>));
+      if (hops == 0) continue;
+      const long double af = (long double)f.a, bf = (long double)f.b, at = (long double)t.a, bt = (long double)t.b;
+      const double tol = TOL_HOP * hops;
+      auto report = [&](float x, float got, long double ref, double err) {
+        vf::viol(std::string("convert|") + VF_ENAME + "|" + f.name + "->" + t.name + "|float|all-mantissas" + (x < 0 ? "|neg" : "|pos"),
+                 "{\"from\":" + vf::jstr(f.name) + ",\"to\":" + vf::jstr(t.name) + ",\"x\":" + vf::jstr(vf::hex(x)) + ",\"observed\":" + vf::jstr(vf::hex(got)) + ",\"exact\":" +
+                     vf::jstr(vf::hex(ref)) + ",\"error_ulps\":" + std::to_string(err) + ",\"tolerance_ulps\":" + std::to_string(tol) + "}");
+      };
+      if (bf == 0 && bt == 0) {
+        const long double ratio = af / at;
+        for (int b : {0, 19, -21}) {
+          // skip binades where input, intermediate or result would leave the normal float range
+          const long double lo = std::ldexp(1.0L, b), top = std::ldexp(2.0L, b);
+          if (std::max({top, top * af, top * ratio}) > 1e37L || std::min({lo, lo * af, lo * ratio}) < 1e-36L) continue;
+          for (int sgn : {1, -1}) {
+            for (uint32_t m = 0; m < (1u << 23); m++) orig[m] = sgn * std::ldexp(1.0f + (float)m * 0x1p-23f, b);
+            buf = orig;
+            PhQ::ConvertInPlace(buf, ef, et);
+            int e0;
+            std::frexp(ratio * lo, &e0);  // results lie in [2^(e0-1), 2^(e0+1))
+            const long double bound = std::ldexp(1.0L, e0), u0 = std::ldexp(1.0L, e0 - 1 - 23), u1 = std::ldexp(1.0L, e0 - 23);
+            double worst = 0;
+            for (uint32_t m = 0; m < (1u << 23); m++) {
+              const long double ref = (long double)orig[m] * ratio;
+              const long double aref = ref < 0 ? -ref : ref;
+              const double err = (double)(std::fabs((long double)buf[m] - ref) / (aref >= bound ? u1 : u0));
+              if (err > worst) worst = err;
+              if (!(err <= tol)) {
+                report(orig[m], buf[m], ref, err);
+                break;
+              }
+            }
+            vf::maxf(std::string("max_ulps_all_float_mantissas_") + (hops == 1 ? "one_hop" : "two_hops"), worst);
+            vf::stat("float_mantissa_conversions", 1 << 23);
+            vf::stat("conversions", 1 << 23);
+            vf::stat("nontrivial_conversions", f.number != t.number ? (1 << 23) : 0);
+          }
+        }
+      } else {
+        // affine: every float bit pattern, in blocks
+        long long done = 0;
+        for (uint64_t base = 0; base < (1ULL << 32); base += (1u << 23)) {
+          size_t n = 0;
+          for (uint32_t k = 0; k < (1u << 23); k++) {
+            uint32_t bits = (uint32_t)(base + k);
+            float x;
+            std::memcpy(&x, &bits, 4);
+            if (!std::isnormal(x) && x != 0) continue;
+            const long double a1 = af * x;
+            if (std::fabs(a1) > 1e37L || std::fabs((a1 + bf - bt) / at) > 1e37L) continue;
+            orig[n++] = x;
+          }
+          std::vector<float> in(orig.begin(), orig.begin() + n);
+          std::vector<float> out = in;
+          PhQ::ConvertInPlace(out, ef, et);
+          for (size_t k = 0; k < n; k++) {
+            const long double ref = (af * in[k] + bf - bt) / at;
+            long double scale = std::max({std::fabs(ref), (std::fabs(af * in[k]) + std::fabs(bf) + std::fabs(bt)) / at});
+            if (scale < 1.17549435e-38L) scale = 1.17549435e-38L;
+            int e;
+            std::frexp(scale, &e);
+            const double err = (double)(std::fabs((long double)out[k] - ref) / std::ldexp(1.0L, e - 24));
+            if (!(err <= tol)) {
+              report(in[k], out[k], ref, err);
+              break;
+            }
+          }
+          done += (long long)n;
+        }
+        vf::stat("float_bit_pattern_conversions", done);
+        vf::stat("conversions", done);
+        vf::stat("nontrivial_conversions", f.number != t.number ? done : 0);
+      }
+      vf::stat("ordered_pairs_float_sweep");
+    }
+}
 
 int main(int argc, char** argv) {
   if (argc < 4) return 2;
@@ -224,6 +323,10 @@ int main(int argc, char** argv) {
   if (ens.size() != U.size()) {
     std::fprintf(stderr, "factor file covers %zu units, reflection finds %zu\n", U.size(), ens.size());
     return 2;
+  }
+  if (argc > 4 && std::string(argv[4]) == "floatsweep") {
+    float_sweep(part, nparts);
+    return 0;
   }
   runtime_pairs<float>(part, nparts);
   runtime_pairs<double>(part, nparts);
